@@ -35,7 +35,9 @@ GTMenu == IF GTSet = "tiny" THEN { <<"C", "C">>, <<"T", "T">> }
           ELSE IF GTSet = "small" THEN { <<"C", "C">>, <<"T", "T">>, <<".", ".">> }
           ELSE { <<"C", "C">>, <<"T", "T">>, <<".", ".">>, <<"C", "T">>, <<"T", "GT">>, <<"GT">> }
 NoSite == [ref |-> "-", alts |-> <<>>, gt |-> [s \in Samples |-> <<>>]]
-SiteMenu == { [ref |-> "C", alts |-> <<"T", "GT", "G">>, gt |-> g] : g \in [Samples -> GTMenu] } \cup {NoSite}
+HasGT(g) == \E s \in Samples : "GT" \in SeqSet(g[s])
+SiteMenu == { [ref |-> "C", alts |-> IF HasGT(g) THEN <<"T", "GT", "G">> ELSE <<"T", "G">>, gt |-> g] : g \in [Samples -> GTMenu] }
+            \cup {NoSite}
 SelAll == [explicit |-> FALSE, s |-> {}]
 SelOne == [explicit |-> TRUE, s |-> {CHOOSE s \in Samples : TRUE}]
 SelBoth == [explicit |-> TRUE, s |-> Samples]
